@@ -12,8 +12,7 @@ CONSTANTS
   Prefits = {"none"}
   CfgSel = "all"
   Sample = 0
-  Depth = 3
-CONSTRAINT Bound
+  Depth = 4
 VIEW MCView
 INVARIANT TypeOK
 INVARIANT ImpliedWellFormed
